@@ -243,8 +243,6 @@ pub proof fn lemma_insert_sorted(s: Seq<Range<usize>>, i: int, a: Range<usize>)
 }
 
 //@fn id=merge_ranges file=code/formatter.rs name=merge_ranges props=C01,C02,C04,C12,C13,C14
-//@requires
-    old(ranges)@.len() + new_ranges@.len() <= usize::MAX,
 //@ensures label=merge_ranges_members props=C01,C02,C04,C14
     old(ranges)@.len() == 0 ==> final(ranges)@ == old(ranges)@,
     old(ranges)@.len() > 0 ==> final(ranges)@.len() == old(ranges)@.len() + new_ranges@.len(),
@@ -258,7 +256,6 @@ pub proof fn lemma_insert_sorted(s: Seq<Range<usize>>, i: int, a: Range<usize>)
     __n0 == __np,
     new_ranges@ =~= __n0.subrange(0, new_ranges@.len() as int),
     ranges@.len() + new_ranges@.len() == old(ranges)@.len() + __n0.len(),
-    old(ranges)@.len() + __n0.len() <= usize::MAX,
     forall|x: Range<usize>| #[trigger] ranges@.contains(x) <==> (old(ranges)@.contains(x) || __n0.subrange(new_ranges@.len() as int, __n0.len() as int).contains(x)),
     sorted_by_start(old(ranges)@) ==> sorted_by_start(ranges@),
 //@loop-ensures
